@@ -233,5 +233,12 @@ def run(tier, seed, replay=None):
         if env:
             raise core.MachineryError("unit simulator disagrees with Gear102: %r" % env[:3])
         rej = [({"case": byid.get(rj[1], {}).get("case")}, {"clause": rj[2], "at": rj[3]}) for rj in rejects]
+        if replay is None:
+            # extension: arc-power levels, limits and scenes (GearLevels.tla) bound to the repository's stand-in gear
+            from . import gearlevels
+            devs = gearlevels.model_runs(out, sc)
+            block = gearlevels.conformance(out, sc)
+            block["named_deviations"] = devs
+            out.extra["gear_levels_conformance"] = block
         out.classify(rej, None)
     return out.finish()
